@@ -71,41 +71,154 @@ AllRouted == {rt \o "_" \o nv : rt \in SeqSet(Routes), nv \in SeqSet(NumVals)}
 QuickRouted == {"s_inf", "s_ninf", "s_nan", "s_e21", "s_nzero", "v_ninf", "v_nan", "v_p31", "v_nhalf", "a_ninf", "a_m1", "a_p53"}
 Routed == IF Quick THEN QuickRouted ELSE AllRouted
 CoreSet == SeqSet(CoreClasses)
-ExtraSet == SeqSet(MirrorClasses) \cup SeqSet(KindClasses) \cup Routed
-ArgSet == CoreSet \cup ExtraSet
-\* The quick sub-grid: the full product of the core classes, every other class in either position next to each of three
-\* benign leads, every class in the third position after three lead pairs (number, number / object, name / buffer, offset).
-\* Thorough: the full product for lengths <= 2, (leads x leads x every class) for length 3.
+\*   small   : in-range small positive integers (the values with which a constructor or an index-taking method succeeds: bounds
+\*             arithmetic), and a string that is the JSON text of nested arrays (the text a reviver walks)
+SmallClasses == <<"one", "three", "sjson">>
+ExtraSet == SeqSet(MirrorClasses) \cup SeqSet(KindClasses) \cup SeqSet(SmallClasses) \cup Routed
+PlainSet == CoreSet \cup ExtraSet
+\* Hostile classes: arguments with behaviour or structure (rendered by the driver, HOSTILE_SRC of checks/c04_driver.py).
+\*   fn_<m>     : a callback that MUTATES the array being iterated (the receiver, its `this`, the array handed to it as third / fourth
+\*                argument) while the built-in that called it is still running: push, pop, length = 0, splice, sort, reverse, a store
+\*                beyond the end, shift.  At most MutBudget mutations per program.
+\*   hook_<m>   : an object whose valueOf / toString / toJSON mutate the receiver when a built-in converts the object
+\*   harr_<m>   : an array one of whose elements has such hooks (and one element is a getter) mutating the array itself: join, concat,
+\*                String(), JSON.stringify run them while walking the array
+\*   cyc_* deep_* : a cyclic array / object; an array / object nested DeepLevels deep (beyond the host's recursion limit)
+\*   t_*        : texts of HostileSize characters: decimal digits, with a sign, radix-prefixed (hex, octal, binary), a fraction, an
+\*                exponent of many digits (positive, negative), nested brackets / braces (JSON text), nested parentheses (a pattern)
+MutKinds == <<"push", "pop", "len0", "splice", "sort", "rev", "store", "shift">>
+MutClasses == {"fn_" \o mk : mk \in SeqSet(MutKinds)}
+HookKinds == {"push", "len0"}
+HookClasses == {"hook_" \o hk : hk \in HookKinds} \cup {"harr_" \o hk : hk \in HookKinds}
+StructClasses == {"cyc_arr", "cyc_obj", "deep_arr", "deep_obj"}
+TextClasses == {"t_dec", "t_neg", "t_hex", "t_oct", "t_bin", "t_frac", "t_exp", "t_nexp", "t_brackets", "t_braces", "t_parens"}
+RadixTexts == {"t_hex", "t_oct", "t_bin"}
+HostileSet == MutClasses \cup HookClasses \cup StructClasses \cup TextClasses
+HostileSize == 5000                  \* characters of a t_* text (beyond the host's 4300-digit integer conversion limit)
+DeepLevels == 1400                   \* nesting of deep_* (beyond the host's default recursion limit of 1000 frames)
+MutBudget == 40
+ArgSet == PlainSet \cup HostileSet
+\* The quick sub-grid: the full product of the core classes, every other plain class in either position next to each of three
+\* benign leads, every plain class in the third position after three lead pairs (number, number / object, name / buffer, offset);
+\* every hostile class alone, first (before a number), second (after a number, a pattern that matches, an array, a JSON text) and third.
+\* Thorough: the full product of the plain classes for lengths <= 2, (leads x leads x every class) for length 3, every hostile class
+\* in either position next to every core class and every hostile lead.
 Lead == {"zero", "sx", "obj"}
 LeadPairs == {<<"zero", "zero">>, <<"obj", "sx">>, <<"abuf", "zero">>}
-Pairs == IF Quick THEN {<<xa, ya>> : xa \in CoreSet, ya \in CoreSet} \cup {<<xa, ya>> : xa \in Lead, ya \in ExtraSet}
-                       \cup {<<xa, ya>> : xa \in ExtraSet, ya \in Lead}
-         ELSE {<<xa, ya>> : xa \in ArgSet, ya \in ArgSet}
-Triples == IF Quick THEN {lp \o <<za>> : lp \in LeadPairs, za \in ArgSet}
-           ELSE {<<xa, ya, za>> : xa \in Lead \cup {"abuf"}, ya \in Lead, za \in ArgSet}
+HostileLeads == {"zero", "regex", "arr12", "sjson"}
+HostileMates == IF Quick THEN HostileLeads ELSE HostileLeads \cup CoreSet
+Pairs == (IF Quick THEN {<<xa, ya>> : xa \in CoreSet, ya \in CoreSet} \cup {<<xa, ya>> : xa \in Lead, ya \in ExtraSet}
+                        \cup {<<xa, ya>> : xa \in ExtraSet, ya \in Lead}
+          ELSE {<<xa, ya>> : xa \in PlainSet, ya \in PlainSet})
+         \cup {<<hc, ya>> : hc \in HostileSet, ya \in (IF Quick THEN {"zero"} ELSE HostileMates)}
+         \cup {<<xa, hc>> : xa \in HostileMates, hc \in HostileSet}
+Triples == (IF Quick THEN {lp \o <<za>> : lp \in LeadPairs, za \in PlainSet}
+            ELSE {<<xa, ya, za>> : xa \in Lead \cup {"abuf"}, ya \in Lead, za \in PlainSet})
+           \cup {<<xa, "zero", hc>> : xa \in (IF Quick THEN {"zero"} ELSE HostileLeads), hc \in HostileSet}
 ArgVectors == {<<>>} \cup {<<xa>> : xa \in ArgSet} \cup Pairs \cup Triples
 \* the vectors given (quick tier) to the receivers that vary the shape / value of a receiver kind (empty array, empty string,
 \* NaN, -Infinity, 1e21): every class alone, and the core classes after each lead.  Thorough: all vectors.
 ShortVector(av) == Len(av) <= 1 \/ (Len(av) = 2 /\ av[1] \in Lead /\ av[2] \in CoreSet)
+\* the vectors given to the hostile receivers (cyclic, deep, self-mutating arrays ...): nothing, a benign value, a mutating callback
+TinySet == {"undefined", "zero", "one", "sx", "obj", "fn", "arr12"} \cup MutClasses
+TinyVector(av) == Len(av) = 0 \/ (Len(av) = 1 /\ av[1] \in TinySet)
+\* small integers (class i<n> = the number n): (buffer, byteOffset [, length]) for everything callable on the global object (the
+\* typed-array constructors build a VIEW whose bounds are byte / element arithmetic), and (start, end) pairs for the receivers
+\* with indexed elements (array, string, typed arrays, buffer)
+SmallInts == IF Quick THEN <<"zero", "one", "i2", "three", "i4", "i8", "i9">>
+             ELSE <<"zero", "one", "i2", "three", "i4", "i5", "i6", "i7", "i8", "i9", "i16", "i17">>
+SmallIntSet == SeqSet(SmallInts)
+ViewVectors == {<<"abuf", of>> : of \in SmallIntSet} \cup {<<"abuf", of, ln>> : of \in SmallIntSet, ln \in SmallIntSet}
+SmallPairs == {<<xa, ya>> : xa \in SmallIntSet, ya \in SmallIntSet}
+AllVectors == ArgVectors \cup ViewVectors \cup SmallPairs
+AllClasses == ArgSet \cup SmallIntSet
+\* the pairs given to the binary operator forms (element store, call, construct): a lead and a core value, or any class and a number
+OpPair(av) == Len(av) = 2 /\ ((av[1] \in Lead /\ av[2] \in CoreSet) \/ av[2] = "zero")
+\* which receivers get a vector: groups
+Grp(cond, gn) == IF cond THEN <<gn>> ELSE <<>>
+VecGroups(av) == Grp(av \in ArgVectors, "kinds") \o Grp(av \in ArgVectors /\ (~Quick \/ ShortVector(av)), "variants")
+                 \o Grp(av \in ArgVectors /\ TinyVector(av), "hostile") \o Grp(av \in ViewVectors, "global")
+                 \o Grp(av \in SmallPairs, "indexed") \o Grp(av \in ArgVectors /\ OpPair(av), "oppair")
+\* ---- receivers (rendered by the driver, RECEIVERS of checks/c04_driver.py) ----
+KindReceivers == {"global", "Math", "JSON", "Object", "Array", "Number", "String", "Boolean", "Date", "RegExp", "Function", "Error", "console",
+                  "str", "arr", "num", "int", "obj", "fn", "regex", "tarr", "f64", "abuf", "err", "bool", "native", "arrow"}
+VariantReceivers == {"arr0", "str0", "numnan", "numninf", "nume21"}
+\* hostile receivers: a cyclic array / object, a deep array / object, an array whose elements' hooks mutate it, a string of HostileSize
+\* digits, the integer 2^53 and the largest double (intermediate results of * and ** leave the doubles)
+HostileReceivers == {"r_cyc_arr", "r_cyc_obj", "r_deep_arr", "r_deep_obj", "r_harr_push", "r_harr_len0", "r_digits", "r_p53", "r_max"}
+IndexedReceivers == {"arr", "str", "tarr", "f64", "abuf"}
+PrimReceivers == {"str", "num", "int", "bool", "str0", "numnan", "numninf", "nume21", "r_digits", "r_p53", "r_max"}
+CallableReceivers == {"fn", "arrow", "native"}
+AllReceivers == KindReceivers \cup VariantReceivers \cup HostileReceivers
+RecvGroups(rn) == Grp(rn \in KindReceivers, "kinds") \o Grp(rn \in VariantReceivers, "variants") \o Grp(rn \in HostileReceivers, "hostile")
+                  \o Grp(rn = "global", "global") \o Grp(rn \in IndexedReceivers, "indexed") \o Grp(rn \in PrimReceivers, "prim")
+                  \o Grp(rn \in CallableReceivers, "callable") \o Grp(rn # "global", "any")
+\* ---- operator forms on a receiver (pseudo-functions of the grid): @R the receiver, @0 @1 the arguments.  A host exception from an
+\*      element store, a length store, an operator or a conversion escapes from eval like one from a method.
+Operators == {
+  [n |-> "get", ar |-> 1, g |-> "any", t |-> "@R[@0]"],                 [n |-> "set", ar |-> 2, g |-> "any", t |-> "@R[@0] = @1"],
+  [n |-> "set1", ar |-> 1, g |-> "any", t |-> "@R[@0] = 1"],            [n |-> "setlen", ar |-> 1, g |-> "any", t |-> "@R.length = @0"],
+  [n |-> "delete", ar |-> 1, g |-> "any", t |-> "delete @R[@0]"],        [n |-> "in", ar |-> 1, g |-> "any", t |-> "@0 in @R"],
+  [n |-> "instanceof", ar |-> 1, g |-> "any", t |-> "@0 instanceof @R"], [n |-> "eq", ar |-> 1, g |-> "any", t |-> "@R == @0"],
+  [n |-> "add", ar |-> 1, g |-> "any", t |-> "@R + @0"],                [n |-> "less", ar |-> 1, g |-> "any", t |-> "@R < @0"],
+  [n |-> "string", ar |-> 0, g |-> "any", t |-> "String(@R)"],          [n |-> "concat", ar |-> 0, g |-> "any", t |-> "@R + ''"],
+  [n |-> "number", ar |-> 0, g |-> "any", t |-> "+@R"],                 [n |-> "json", ar |-> 0, g |-> "any", t |-> "JSON.stringify(@R)"],
+  [n |-> "forin", ar |-> 0, g |-> "any", t |-> "for (var k in @R) { @R[k]; }"],
+  [n |-> "forof", ar |-> 0, g |-> "any", t |-> "for (var v of @R) { v; }"],
+  [n |-> "keys", ar |-> 0, g |-> "any", t |-> "Object.keys(@R)"],       [n |-> "spread", ar |-> 0, g |-> "any", t |-> "Math.max.apply(null, @R)"],
+  [n |-> "arrconcat", ar |-> 0, g |-> "any", t |-> "[].concat(@R, [@R])"], [n |-> "key", ar |-> 0, g |-> "any", t |-> "var o = {}; o[@R] = 1; o[@R]"],
+  [n |-> "walk", ar |-> 0, g |-> "any", t |-> "for (var i = 0; i < @R.length && i < 64; i++) { @R[i] = @R[i]; }"],
+  [n |-> "call", ar |-> 2, g |-> "callable", t |-> "@R(@0, @1)"],       [n |-> "new", ar |-> 2, g |-> "callable", t |-> "new @R(@0, @1)"],
+  [n |-> "apply", ar |-> 1, g |-> "callable", t |-> "@R.apply(null, @0)"],
+  [n |-> "pow", ar |-> 1, g |-> "prim", t |-> "@R ** @0"],              [n |-> "powr", ar |-> 1, g |-> "prim", t |-> "(@0) ** @R"],
+  [n |-> "mul", ar |-> 1, g |-> "prim", t |-> "@R * @0"],               [n |-> "div", ar |-> 1, g |-> "prim", t |-> "@R / @0"],
+  [n |-> "mod", ar |-> 1, g |-> "prim", t |-> "@R % @0"],               [n |-> "sub", ar |-> 1, g |-> "prim", t |-> "@R - @0"],
+  [n |-> "shl", ar |-> 1, g |-> "prim", t |-> "@R << @0"],              [n |-> "shru", ar |-> 1, g |-> "prim", t |-> "@R >>> @0"],
+  [n |-> "and", ar |-> 1, g |-> "prim", t |-> "@R & @0"],               [n |-> "neg", ar |-> 0, g |-> "prim", t |-> "-@R"],
+  [n |-> "not", ar |-> 0, g |-> "prim", t |-> "~@R"],                   [n |-> "inc", ar |-> 0, g |-> "prim", t |-> "var x = @R; x++; ++x"],
+  [n |-> "powself", ar |-> 0, g |-> "prim", t |-> "@R ** @R * @R"]}
+\* ---- the use of a call's result: when a call of the grid returns an object, these statements are run on it (@U) in the same
+\*      context, each under its own try / catch (a JSError of one does not stop the next; a host exception escapes): every element is
+\*      read and stored back, one element is stored beyond the end, the object is enumerated and converted, and the methods that
+\*      read or write elements are called.  "A store on an object built earlier" for every construction form of the grid.
+UseOps == <<"for (var i = 0; i < @U.length && i < 64; i++) { var t = @U[i]; @U[i] = t; }", "@U[@U.length] = 1;", "for (var k in @U) { @U[k]; }",
+           "String(@U);", "JSON.stringify(@U);", "if (typeof @U.set === 'function' && typeof @U.subarray === 'function') { @U.set([1, 2]); @U.set(@U.subarray(1), 1); }",
+           "if (typeof @U.subarray === 'function') { var s = @U.subarray(1); for (var j = 0; j < s.length && j < 64; j++) { s[j] = 1; } }",
+           "if (typeof @U.fill === 'function') { @U.fill(1); }", "if (typeof @U.reverse === 'function') { @U.reverse(); }",
+           "if (typeof @U.sort === 'function') { @U.sort(); }", "if (typeof @U.slice === 'function') { @U.slice(1); }",
+           "if (typeof @U.exec === 'function') { @U.exec('aa'); @U.lastIndex = -1; @U.test('aa'); }",
+           "if (typeof @U.getTime === 'function') { @U.toISOString(); }", "if (typeof @U === 'function') { @U(); new @U(); }">>
 HugeVals == {"p31", "p53", "e21"}
-Huge == HugeVals \cup {rt \o "_" \o hv : rt \in SeqSet(Routes), hv \in HugeVals}
-\* calls that legitimately allocate memory proportional to a numeric argument are not made with huge arguments
+\* Calls that legitimately allocate memory proportional to a numeric argument are not made with 2^31: gigabytes that a host can
+\* provide (whether it does is a property of the machine, and the replay would really allocate them).  They ARE made with 2^53 and 1e21:
+\* no host can provide that, the engine has to refuse with a JSError (a host MemoryError / OverflowError is a host exception like any other).
+Huge == {"p31"} \cup {rt \o "_p31" : rt \in SeqSet(Routes)}
 Allocating == {"repeat", "Array", "ArrayBuffer", "Int8Array", "Uint8Array", "Uint8ClampedArray", "Int16Array", "Uint16Array",
-               "Int32Array", "Uint32Array", "Float32Array", "Float64Array", "padStart", "padEnd", "fill", "from", "constructor"}
+               "Int32Array", "Uint32Array", "Float32Array", "Float64Array", "padStart", "padEnd", "fill", "from", "constructor", "op:setlen"}
 CallSupported(fname, args) == ~(fname \in Allocating /\ \E ai \in 1..Len(args) : args[ai] \in Huge)
+GridItem(kd, nm, sq, gs, nn) == [kind |-> kd, pf |-> nm, cls |-> sq, to |-> gs, ar |-> nn]
+GridItems == {GridItem("vec", "", av, VecGroups(av), Len(av)) : av \in AllVectors}
+             \cup {GridItem("recv", rn, <<>>, RecvGroups(rn), 0) : rn \in AllReceivers}
+             \cup {GridItem("op", op.n, <<op.t>>, <<op.g>>, op.ar) : op \in Operators}
+             \cup {GridItem("use", "", <<UseOps[ui]>>, <<>>, ui) : ui \in 1..Len(UseOps)}
+             \cup {GridItem("huge", hc, <<>>, <<>>, 0) : hc \in Huge} \cup {GridItem("allocating", fc, <<>>, <<>>, 0) : fc \in Allocating}
+             \cup {GridItem("param", "HostileSize", <<>>, <<>>, HostileSize), GridItem("param", "DeepLevels", <<>>, <<>>, DeepLevels),
+                   GridItem("param", "MutBudget", <<>>, <<>>, MutBudget)}
 GridInit == ph = "start" /\ pf = "" /\ inp = <<>> /\ rec_i = 0
-GridNext == ph = "start" /\ ph' = "vec" /\ (\E av \in ArgVectors : inp' = av) /\ UNCHANGED <<pf, rec_i>>
-GridEmit == IF ph = "vec" THEN PrintT(ToJson([kind |-> "vec", pf |-> IF ShortVector(inp) THEN "short" ELSE "", cls |-> inp]))
-            ELSE /\ \A hc \in Huge : PrintT(ToJson([kind |-> "huge", pf |-> hc, cls |-> <<>>]))
-                 /\ \A fc \in Allocating : PrintT(ToJson([kind |-> "allocating", pf |-> fc, cls |-> <<>>]))
+GridNext == ph = "start" /\ ph' = "item" /\ (\E gi \in GridItems : inp' = gi) /\ UNCHANGED <<pf, rec_i>>
+GridEmit == ph # "item" \/ PrintT(ToJson(inp))
 \* laws of the grid itself (both tiers): every value the property names is a class; every class stands alone, in the first and in
 \* the second position of a pair and in the third position; every numeric value has its negative mirror; every route is present
-\* with a negative infinity; a routed huge value is huge; the sub-grid of the quick tier is a sub-grid
+\* with a negative infinity; a routed huge value is huge; the sub-grid of the quick tier is a sub-grid; every mutation kind has its
+\* callback, every hook kind its object and its array; every vector reaches a receiver and every receiver gets vectors; the operator
+\* forms mention the receiver and as many arguments as their arity; the hostile sizes are beyond the host's limits
 Named == {"undefined", "null", "nan", "inf", "ninf", "m1", "p31", "p53", "e21", "half", "s7", "obj", "arr", "fn"}
 MirrorOf == [nv \in SeqSet(NumVals) |->
                CASE nv = "inf" -> "ninf" [] nv = "ninf" -> "inf" [] nv = "zero" -> "nzero" [] nv = "nzero" -> "zero" [] nv = "p31" -> "n31" [] nv = "n31" -> "p31"
                  [] nv = "p53" -> "n53" [] nv = "n53" -> "p53" [] nv = "e21" -> "ne21" [] nv = "ne21" -> "e21" [] nv = "half" -> "nhalf" [] nv = "nhalf" -> "half"
                  [] OTHER -> nv]
+HasSub(tx, pat) == \E si \in 1..(Len(tx) - Len(pat) + 1) : SubSeq(tx, si, si + Len(pat) - 1) = pat
+SeqHas(sq, el) == \E si \in 1..Len(sq) : sq[si] = el
 GridLaw == ph = "start" =>
              /\ Named \subseteq ArgSet /\ SeqSet(NumVals) \subseteq ArgSet /\ AllRouted \cap ArgSet = Routed /\ QuickRouted \subseteq AllRouted
              /\ \A nv \in SeqSet(NumVals) : MirrorOf[nv] \in ArgSet /\ MirrorOf[MirrorOf[nv]] = nv
@@ -114,10 +227,26 @@ GridLaw == ph = "start" =>
                                    /\ \E av \in ArgVectors : Len(av) = 2 /\ av[2] = ac
                                    /\ \E av \in ArgVectors : Len(av) = 3 /\ av[3] = ac
              /\ \A rt \in SeqSet(Routes) : (rt \o "_ninf") \in Routed /\ \E hv \in HugeVals : (rt \o "_" \o hv) \in Routed
-             /\ \A av \in ArgVectors : Len(av) <= 3 /\ \A ai \in 1..Len(av) : av[ai] \in ArgSet
-             /\ Huge \cap AllRouted = {rc \in AllRouted : \E hv \in HugeVals : \E rt \in SeqSet(Routes) : rc = rt \o "_" \o hv}
+             /\ \A av \in AllVectors : Len(av) <= 3 /\ \A ai \in 1..Len(av) : av[ai] \in AllClasses
+             /\ Huge \cap AllRouted = {rc \in AllRouted : \E rt \in SeqSet(Routes) : rc = rt \o "_p31"} /\ Huge \subseteq ArgSet \cup AllRouted
+             /\ \E hv \in HugeVals \ Huge : hv \in Named
              /\ \E av \in ArgVectors : ~ShortVector(av)
-             /\ Cardinality(ArgSet) = Len(CoreClasses) + Len(MirrorClasses) + Len(KindClasses) + Cardinality(Routed)
+             /\ Cardinality(PlainSet) = Len(CoreClasses) + Len(MirrorClasses) + Len(KindClasses) + Len(SmallClasses) + Cardinality(Routed)
+             /\ PlainSet \cap HostileSet = {}
+             /\ Cardinality(HostileSet) = Len(MutKinds) + 2 * Cardinality(HookKinds) + Cardinality(StructClasses) + Cardinality(TextClasses)
+             /\ HookKinds \subseteq SeqSet(MutKinds) /\ RadixTexts \subseteq TextClasses /\ HostileLeads \subseteq PlainSet /\ TinySet \subseteq ArgSet
+             /\ \A hc \in HostileSet : \A ld \in HostileLeads : <<ld, hc>> \in ArgVectors
+             /\ \A mc \in MutClasses : \A rn \in HostileReceivers : \E av \in ArgVectors : av = <<mc>> /\ SeqHas(VecGroups(av), "hostile")
+             /\ \A av \in AllVectors : VecGroups(av) # <<>>
+             /\ \A rn \in AllReceivers : \E av \in AllVectors : \E gi \in 1..Len(RecvGroups(rn)) : SeqHas(VecGroups(av), RecvGroups(rn)[gi])
+             /\ \A of \in SmallIntSet : \A ln \in SmallIntSet : <<"abuf", of, ln>> \in ViewVectors
+             /\ {"zero", "one", "three"} \subseteq SmallIntSet /\ Cardinality(SmallIntSet) = Len(SmallInts)
+             /\ \A op \in Operators : /\ HasSub(op.t, "@R") /\ op.ar \in 0..2 /\ op.g \in {"any", "prim", "callable"}
+                                      /\ (op.ar >= 1 <=> HasSub(op.t, "@0")) /\ (op.ar = 2 <=> HasSub(op.t, "@1"))
+             /\ Cardinality({op.n : op \in Operators}) = Cardinality(Operators)
+             /\ \A ui \in 1..Len(UseOps) : HasSub(UseOps[ui], "@U")
+             /\ HostileSize > 4300 /\ DeepLevels > 1000 /\ MutBudget >= 8
+             /\ PrimReceivers \cup CallableReceivers \cup IndexedReceivers \subseteq AllReceivers
 
 \* ---------------- literal / statement families (S->C) -----------------------------------------------------------
 \* (a) numeric literals of many digits: form x number of digits x digit x embedding.  The text is rendered by the driver
@@ -440,6 +569,8 @@ HostSites == {
    kinds |-> {"src", "cls"}, fnames |-> AnyArg, args |-> AnyArg],
   [dev |-> "Dev_ToPrimitiveBound", type |-> "TypeError", where |-> {"vm.py:_to_primitive"},
    kinds |-> {"call", "src", "cls"}, fnames |-> AnyArg, args |-> AnyArg],
+  [dev |-> "Dev_RadixStringOverflow", type |-> "OverflowError", where |-> {"values.py:_string_to_number"},
+   kinds |-> {"call"}, fnames |-> AnyArg, args |-> RadixTexts],
   [dev |-> "Dev_RegExpError", type |-> "RegExpError", where |-> {"parser.py:parse", "parser.py:_parse_alternative", "parser.py:_parse_escape",
                                                                 "parser.py:_parse_atom", "parser.py:_parse_quantifier", "parser.py:_parse_group",
                                                                 "parser.py:_parse_char_class", "parser.py:_parse_term", "parser.py:_parse_disjunction"},
@@ -512,9 +643,14 @@ JudgeToks(r) ==
        IF S1 # {} THEN Mis(CHOOSE dd \in S1 : TRUE, "malformed token sequence accepted (as-is parser rule)")
        ELSE IF ParseStmtsD(r.toks, ParserDevs).ok THEN Mis(CHOOSE dd \in ParserDevs : TRUE, "malformed token sequence accepted (as-is parser rules)")
        ELSE Mis("", "malformed token sequence accepted")
+\* a call of the grid (a method, a global function, an operator form); lex = the outcome of the use of its result (o = "none" when the
+\* call did not return an object)
 JudgeCall(r) ==
   IF ~CallSupported(r.fname, r.args) THEN [v |-> "unsupported", dev |-> "", why |-> "allocating call with a huge argument"]
-  ELSE Typing(r, <<0>>)
+  ELSE LET ty == Typing(r, <<0>>) IN
+       IF ty.v # "pass" THEN ty
+       ELSE IF r.lex.o = "none" \/ InJSErrorFamily(r.lex) THEN Pass
+       ELSE Mis(HostDevOf([r EXCEPT !.out = r.lex]), "use of the object a call returned: outcome outside the JSError family")
 
 \* a numeric literal of many digits (fname = form, args = <<embedding, digit>>) is a number
 JudgeLong(r) ==
